@@ -34,19 +34,19 @@ CHECKS = {
    note="bounded domain (3 ids, a in {NULL,1,2}, b in {NULL,0,1,5}); quick replays a stratified seeded sample of the explored transitions plus random walks, thorough replays depth-4 transitions; renderer/normaliser in lib/relational.py trusted; open findings listed in known_findings.json by spec-defined signature"),
  "C05": dict(cat="model_checking", ref="DESIGN.md 3.9, 6 (C05)",
    tech="TLA+ reference spec Relational.tla explored by TLC (per-transition emission, VIEW hides history; -simulate random walks); every behaviour rendered to SQL and replayed on TurDB, results and full observation compared with the model",
-   text="every INSERT (1 and 2 rows) / UPDATE / DELETE / TRUNCATE transition TLC explores from every reachable table state (with tombstone and reopen history classes in the VIEW) is executed on TurDB: affected-row count, resulting rows and COUNT(*) must equal the model's",
+   text="every INSERT (1 and 2 rows) / UPDATE / DELETE / TRUNCATE transition TLC explores from every reachable table state (with tombstone and reopen history classes in the VIEW) is executed on TurDB: affected-row count, resulting rows and COUNT(*) must equal the model's; a second reference, WideTable.tla, drives statements on runs of ids over tables of 150-400 rows (leaf and interior splits) with affected-row counts and the scan compared with the model after every step",
    note="bounded domain (3 ids, a in {NULL,1,2}, b in {NULL,0,1,5}); quick replays a stratified seeded sample of the explored transitions plus random walks, thorough replays depth-4 transitions; renderer/normaliser in lib/relational.py trusted; open findings listed in known_findings.json by spec-defined signature"),
  "C06": dict(cat="model_checking", ref="DESIGN.md 3.9, 6 (C06)",
    tech="TLA+ reference spec Relational.tla explored by TLC (per-transition emission, VIEW hides history; -simulate random walks); every behaviour rendered to SQL and replayed on TurDB, results and full observation compared with the model",
-   text="every failing statement TLC generates (all failure kinds incl. k-th row of a multi-row INSERT and multi-row UPDATE) and every statement TurDB rejects: the full observation afterwards must equal the model's pre-statement state",
+   text="every failing statement TLC generates (all failure kinds incl. k-th row of a multi-row INSERT and multi-row UPDATE) and every statement TurDB rejects: the full observation afterwards must equal the model's pre-statement state; on a table with an AUTO_INCREMENT primary key (schedules of AutoInc.tla) every statement TurDB rejects must leave the table as read back before it",
    note="bounded domain (3 ids, a in {NULL,1,2}, b in {NULL,0,1,5}); quick replays a stratified seeded sample of the explored transitions plus random walks, thorough replays depth-4 transitions; renderer/normaliser in lib/relational.py trusted; open findings listed in known_findings.json by spec-defined signature"),
  "C09": dict(cat="model_checking", ref="DESIGN.md 3.9, 6 (C09)",
    tech="TLA+ reference spec Relational.tla explored by TLC (per-transition emission, VIEW hides history; -simulate random walks); every behaviour rendered to SQL and replayed on TurDB, results and full observation compared with the model",
-   text="TurDB must accept a write iff Relational.tla's TableOk (PRIMARY KEY, UNIQUE with distinct NULLs, NOT NULL, CHECK) holds for the resulting table, for every explored transition, both directions (accepts_invalid / rejects_valid) reported",
+   text="TurDB must accept a write iff Relational.tla's TableOk (PRIMARY KEY, UNIQUE with distinct NULLs, NOT NULL, CHECK) holds for the resulting table, for every explored transition, both directions (accepts_invalid / rejects_valid) reported; after every sampled behaviour the constraint state itself is probed: the table must accept exactly the single-row INSERTs the model accepts (Accepts in MC_Relational.tla), so a unique / primary-key entry lost or left behind by an earlier statement shows at once",
    note="bounded domain (3 ids, a in {NULL,1,2}, b in {NULL,0,1,5}); quick replays a stratified seeded sample of the explored transitions plus random walks, thorough replays depth-4 transitions; renderer/normaliser in lib/relational.py trusted; open findings listed in known_findings.json by spec-defined signature"),
  "C10": dict(cat="model_checking", ref="DESIGN.md 3.9, 6 (C10)",
    tech="TLA+ reference spec Relational.tla explored by TLC (per-transition emission, VIEW hides history; -simulate random walks); every behaviour rendered to SQL and replayed on TurDB, results and full observation compared with the model",
-   text="after every explored transition on a table with primary-key, unique and secondary indexes, every index-path query (point, range, IS NULL) is compared with what the full scan of the same database implies; no model is involved in the comparison, the model only generates the histories",
+   text="after every explored transition on a table with primary-key, unique and secondary indexes, every index-path query (point, range, IS NULL) is compared with what the full scan of the same database implies; no model is involved in the comparison, the model only generates the histories; plus a transaction-focused exhaustive exploration (TSpec: ROLLBACK / ROLLBACK TO / RELEASE histories of depth 6-7 on a table with a CREATE INDEX index) and WideTable.tla walks over tables of 150-400 rows (primary-key and secondary-index probes vs the scan after every step)",
    note="bounded domain (3 ids, a in {NULL,1,2}, b in {NULL,0,1,5}); quick replays a stratified seeded sample of the explored transitions plus random walks, thorough replays depth-4 transitions; renderer/normaliser in lib/relational.py trusted; open findings listed in known_findings.json by spec-defined signature"),
 }
 
